@@ -147,6 +147,7 @@ class C06(Check):
         return v() + v() + v() + rng.getrandbits(256).to_bytes(32, "little") + rng.getrandbits(32).to_bytes(4, "little")
 
     def gen(self, tier, rng):
+        self.full = {}
         cs = []
         seen = set()
 
@@ -202,8 +203,15 @@ class C06(Check):
         for n in sorted(counts):
             for mtx in miner_txs:
                 for _ in range(2 if n <= 16 else 1):
-                    add("blockparts %s %s %s %s" % (hx(self.header(rng)), hx(mtx), hx(tx_hash_ref(mtx)),
-                                                    hx(b"".join(self.leaves(rng, n)))), "block-generated")
+                    hdr = self.header(rng)
+                    lv = self.leaves(rng, n)
+                    add("blockparts %s %s %s %s" % (hx(hdr), hx(mtx), hx(tx_hash_ref(mtx)), hx(b"".join(lv))), "block-generated")
+                    if n <= 70 or n in (126, 127, 128, 129, 255, 256):
+                        # the same block as ONE byte string through the real parser: deserialize::<Block>, then
+                        # tx_root / serialize_hashable / id of the parsed object (model: dec_block + TxId + TreeHash)
+                        full = hdr + mtx + varint(n) + b"".join(lv)
+                        self.full[hx(full)] = (hdr, mtx, lv)
+                        add("blockfull " + hx(full), "block-from-bytes")
         return cs
 
     @staticmethod
@@ -238,6 +246,13 @@ class C06(Check):
                 if impl != want:
                     return "tree_hash of %d leaves: implementation %s, recursive CryptoNote definition (python) %s" % (
                         len(ls), impl[:100], want)
+            return None
+        if w[0] == "blockfull":
+            hdr, mtx, txs = self.full[w[1]]
+            leaves = [tx_hash_ref(mtx)] + txs
+            want = "OK %s %s %s" % (tree_ref(leaves).hex(), blob_ref(hdr, leaves).hex(), id_ref(hdr, leaves).hex())
+            if impl != want:
+                return "block of %d tx hashes parsed from bytes: root/blob/id %s, python reference %s" % (len(txs), impl[:200], want[:200])
             return None
         if w[0] == "blockparts":
             hdr = bytes.fromhex(w[1])
